@@ -153,6 +153,10 @@ type Property struct {
 	MinConclusive func(tier string) int
 	// Env is extra environment for workers.
 	Env []string
+	// BenignCrash, if set, inspects the output tail of a worker that died while running a case; a
+	// non-empty reason makes the case inconclusive instead of a violation (crashes of the system under
+	// test that are outside the property, e.g. a start-up race of the server wiring).
+	BenignCrash func(tail string) string
 }
 
 var registry = map[string]*Property{}
@@ -562,6 +566,9 @@ func runBatch(p *Property, tier string, master int64, b *batch, scratch, tmp str
 			if timedOut {
 				r.Verdict = Inconclusive
 				r.Note = "watchdog: worker killed after " + p.BatchTimeout.String() + "\n" + tail
+			} else if reason := benign(p, tail); reason != "" {
+				r.Verdict = Inconclusive
+				r.Note = "worker died (" + reason + "):\n" + tail
 			} else if p.PanicIsViolation {
 				r.Verdict = Violated
 				r.Violations = []Violation{{Sig: "crash:" + crashSig(tail), Detail: "worker process died while running this case", Data: tail}}
@@ -584,6 +591,13 @@ func runBatch(p *Property, tier string, master int64, b *batch, scratch, tmp str
 		}
 	}
 	return all, races
+}
+
+func benign(p *Property, tail string) string {
+	if p.BenignCrash == nil {
+		return ""
+	}
+	return p.BenignCrash(tail)
 }
 
 func crashSig(tail string) string {
